@@ -68,6 +68,23 @@ static inline _Bool spec_forbidden_bit(uint32_t side, uint32_t sq, uint32_t k, u
   }
   return hit;
 }
+/* a witness for spec_forbidden_bit: (kind << 8) | square of one attacking enemy piece - kind 1 pawn, 2 knight, 3/4/5 bishop/rook/queen,
+ * 6 king; 0 if there is none (the square is only meaningful for kinds 2..5) */
+static inline uint32_t spec_fb_cause(uint32_t side, uint32_t sq, uint32_t k, uint64_t occ, uint64_t ep_, uint64_t en, uint64_t eb, uint64_t er, uint64_t eq, uint64_t ek)
+{
+  uint64_t blockers = occ ^ SPEC_BIT(k);
+  uint32_t kind = 0, s0 = 0;
+  for (uint32_t s = 0; s < 64; s++) {
+    _Bool d = spec_sees(1, s, sq, blockers), o = spec_sees(0, s, sq, blockers);
+    if (((eq >> s) & 1) && (d || o)) { kind = 5; s0 = s; }
+    if (((er >> s) & 1) && o) { kind = 4; s0 = s; }
+    if (((eb >> s) & 1) && d) { kind = 3; s0 = s; }
+    if (((en >> s) & 1) && ((spec_knight(sq) >> s) & 1)) { kind = 2; s0 = s; }
+  }
+  if (spec_king(sq) & ek) kind = 6;
+  if (spec_pawn_attackers_of(sq, side) & ep_) kind = 1;
+  return (kind << 8) | s0;
+}
 /* square of the piece pinned on `ray` (64 if there is no pin on that ray) */
 static inline uint32_t spec_pin_sq(int ray, uint32_t k, uint64_t occ, uint64_t own, uint64_t eq, uint64_t er, uint64_t eb)
 { uint32_t sq; return spec_pin_on_ray(ray, k, occ, own, eq, er, eb, &sq) ? sq : 64u; }
@@ -125,62 +142,97 @@ static inline int spec_pinned_pawn_count(uint32_t side, uint32_t from, int ray, 
 }
 
 /* ================= the check-mask / pin algorithm as a predicate on one move (intermediate specification) =================
- * Square sets are taken from the mailbox board.  For the side to move: checkers, capture/push masks, pinned set; a move is
- * produced iff one of the leaf rules above produces it under these masks.  C01 = (engine == this predicate) + (this predicate ==
- * the rules of chess, sp_legal). */
-#ifdef SPEC_POS_H
-static inline uint64_t alg_set(const sp_pc *b, uint32_t pc) { uint64_t o = 0; for (uint32_t s = 0; s < 64; s++) if (b[s] == pc) o |= SPEC_BIT(s); return o; }
-static inline uint64_t alg_colour(const sp_pc *b, uint32_t c) { uint64_t o = 0; for (uint32_t s = 0; s < 64; s++) if (b[s] != 0 && sp_colour(b[s]) == c) o |= SPEC_BIT(s); return o; }
+ * For the side to move: checkers, capture/push masks, pinned set; a move is produced iff one of the leaf rules above produces it
+ * under these masks.  C01 = (engine == this predicate) + (this predicate == the rules of chess, sp_legal).
+ *
+ * The predicate is written in two layers so that the engine-side composition proof stays small:
+ *   spec_alg_core(S, G, m)  works on square SETS (S) and on the VALUES of the geometric sub-queries (G: checkers, pinned square per
+ *                           ray, attack set of the moving piece, forbidden bits at the squares m needs, king-checker segment) -
+ *                           pure mask glue, no ray walk inside;
+ *   spec_alg_count(P, m)    = spec_alg_core(sets of the mailbox board P, the true values of those sub-queries, m).
+ * The composition obligation proves  engine == spec_alg_core  for EVERY value of G that the leaf contracts allow (the leaves
+ * themselves are proved against the true values); the theorem jobs prove spec_alg_count == sp_legal. */
+typedef struct { uint64_t own, enemy; uint64_t kind[7]; uint32_t k, side, rights, ep; } AlgSets;
+typedef struct { uint64_t checkers; uint32_t pin[8]; uint64_t att[6]; _Bool fb_t, fb_a, fb_b; uint64_t seg; } AlgGhost;
 static inline uint32_t alg_lsb(uint64_t x) { uint32_t r = 64; for (int s = 63; s >= 0; s--) if ((x >> s) & 1) r = (uint32_t)s; return r; }
-static inline int spec_alg_count(const SPos *P, uint32_t m)
+static inline uint32_t alg_kind_at(const AlgSets *S, uint32_t sq)
+{ uint32_t r = 0; for (uint32_t k = 1; k <= 6; k++) if ((S->kind[k] >> (sq & 63)) & 1) r = k; return r; }
+/* the two squares whose safety castling code cc depends on (f,g / d,c), seen from side's home rank */
+static inline uint32_t alg_castle_sq_a(uint32_t side, uint32_t cc) { return (side == 0 ? 0u : 56u) + (cc == 1 ? 5u : 3u); }
+static inline uint32_t alg_castle_sq_b(uint32_t side, uint32_t cc) { return (side == 0 ? 0u : 56u) + (cc == 1 ? 6u : 2u); }
+static inline int spec_alg_core(const AlgSets *S, const AlgGhost *G, uint32_t m)
 {
-  const sp_pc *b = P->board; uint32_t side = P->side, en = 1 - side;
-  uint64_t own = alg_colour(b, side), enemy = alg_colour(b, en), occ = own | enemy;
-  uint64_t ep_ = alg_set(b, sp_piece(en, 1)), enn = alg_set(b, sp_piece(en, 2)), eb = alg_set(b, sp_piece(en, 3)), er = alg_set(b, sp_piece(en, 4)),
-           eq = alg_set(b, sp_piece(en, 5)), ek = alg_set(b, sp_piece(en, 6));
-  uint32_t k = sp_king_sq(b, side);
+  uint32_t side = S->side, k = S->k;
+  uint64_t own = S->own, enemy = S->enemy, occ = own | enemy;
   uint32_t f = spec_move_from(m), t = spec_move_to(m), pr = spec_move_promo(m), cc = spec_move_ccode(m);
   _Bool plain = cc == 0 && pr == 0 && (m >> 17) == 0;
   if ((m >> 17) != 0) return 0;
-  uint64_t checkers = (spec_pawn_attackers_of(k, side) & ep_) | (spec_knight(k) & enn) | (spec_bishop_walk(k, occ) & (eb | eq)) | (spec_rook_walk(k, occ) & (er | eq));
-  _Bool king_move = plain && f == k && ((spec_king(k) >> t) & 1) && !((own >> t) & 1) && !spec_forbidden_bit(side, t, k, occ, ep_, enn, eb, er, eq, ek);
+  uint64_t checkers = G->checkers;
+  _Bool king_move = plain && f == k && ((spec_king(k) >> t) & 1) && !((own >> t) & 1) && !G->fb_t;
   uint64_t push_mask, capture_mask;
   if (checkers) {
     if (checkers & (checkers - 1)) return king_move;
     capture_mask = checkers;
-    uint32_t cs = alg_lsb(checkers); uint32_t ck = sp_kind(b[cs]);
-    push_mask = (ck == 3 || ck == 4 || ck == 5) ? (spec_segment(k, cs) ^ SPEC_BIT(k) ^ SPEC_BIT(cs)) : 0;
+    uint32_t cs = alg_lsb(checkers); uint32_t ck = alg_kind_at(S, cs);
+    push_mask = (ck == 3 || ck == 4 || ck == 5) ? (G->seg ^ SPEC_BIT(k) ^ SPEC_BIT(cs)) : 0;
   } else { push_mask = ~occ; capture_mask = enemy; }
-  uint64_t pinned = spec_pinned_set(k, occ, own, eq, er, eb);
+  uint64_t pinned = 0;
+  for (int r = 0; r < 8; r++) if (G->pin[r] < 64) pinned |= SPEC_BIT(G->pin[r]);
   uint64_t target = capture_mask | push_mask;
+  uint64_t own_pawns = own & S->kind[1];
   int cnt = 0;
-  cnt += spec_pawn_count(side, alg_set(b, sp_piece(side, 1)) & ~pinned, ~occ, push_mask, capture_mask, m);
+  cnt += spec_pawn_count(side, own_pawns & ~pinned, ~occ, push_mask, capture_mask, m);
   if (plain && ((own >> f) & 1) && !((pinned >> f) & 1)) {
-    uint32_t kd = sp_kind(b[f]);
-    uint64_t att = kd == 2 ? spec_knight(f) : kd == 3 ? spec_bishop_walk(f, occ) : kd == 4 ? spec_rook_walk(f, occ) : kd == 5 ? spec_queen_walk(f, occ) : 0;
+    uint32_t kd = alg_kind_at(S, f);
+    uint64_t att = (kd >= 2 && kd <= 5) ? G->att[kd] : 0;
     if ((att & target) >> t & 1) cnt++;
   }
-  if (P->ep != SP_NONE) cnt += spec_ep_count(side, occ, k, alg_set(b, sp_piece(en, 4)) | eq, alg_set(b, sp_piece(side, 1)) & ~pinned, push_mask, capture_mask, P->ep, m);
+  if (S->ep != 64) cnt += spec_ep_count(side, occ, k, enemy & (S->kind[4] | S->kind[5]), own_pawns & ~pinned, push_mask, capture_mask, S->ep, m);
   if (king_move) cnt++;
   if (!checkers) {
     for (int r = 0; r < 8; r++) {
-      uint32_t q = spec_pin_sq(r, k, occ, own, eq, er, eb);
-      if (q != 64 && cc == 0 && f == q) {
-        uint32_t kd = sp_kind(b[q]);
-        if (kd == 1) cnt += spec_pinned_pawn_count(side, q, r, occ, enemy, P->ep, m);
+      uint32_t q = G->pin[r];
+      if (q < 64 && cc == 0 && f == q) {
+        uint32_t kd = alg_kind_at(S, q);
+        if (kd == 1) cnt += spec_pinned_pawn_count(side, q, r, occ, enemy, S->ep, m);
         else if (kd != 2) {
           _Bool allowed = kd == 5 || (kd == 3 && (r & 1) == 0) || (kd == 4 && (r & 1) == 1);
           if (allowed && plain && (((spec_walk_line(r, q, occ) & target) >> t) & 1)) cnt++;
         }
       }
     }
-    uint32_t h = sp_home(side);
-    _Bool f_att = spec_forbidden_bit(side, h + 5, k, occ, ep_, enn, eb, er, eq, ek), g_att = spec_forbidden_bit(side, h + 6, k, occ, ep_, enn, eb, er, eq, ek);
-    _Bool c_att = spec_forbidden_bit(side, h + 2, k, occ, ep_, enn, eb, er, eq, ek), d_att = spec_forbidden_bit(side, h + 3, k, occ, ep_, enn, eb, er, eq, ek);
-    if (m == (1u << 15) && ((P->rights >> (2 * side)) & 1) && !f_att && !g_att && !((occ >> (h + 5)) & 1) && !((occ >> (h + 6)) & 1)) cnt++;
-    if (m == (2u << 15) && ((P->rights >> (2 * side + 1)) & 1) && !c_att && !d_att && !((occ >> (h + 2)) & 1) && !((occ >> (h + 3)) & 1) && !((occ >> (h + 1)) & 1)) cnt++;
+    uint32_t h = side == 0 ? 0u : 56u;
+    if (m == (1u << 15) && ((S->rights >> (2 * side)) & 1) && !G->fb_a && !G->fb_b && !((occ >> (h + 5)) & 1) && !((occ >> (h + 6)) & 1)) cnt++;
+    if (m == (2u << 15) && ((S->rights >> (2 * side + 1)) & 1) && !G->fb_a && !G->fb_b && !((occ >> (h + 2)) & 1) && !((occ >> (h + 3)) & 1) && !((occ >> (h + 1)) & 1)) cnt++;
   }
   return cnt;
 }
+/* the true values of the geometric sub-queries for the sets S and the move m */
+static inline void spec_alg_true_ghost(const AlgSets *S, uint32_t m, AlgGhost *G)
+{
+  uint32_t side = S->side, k = S->k; uint64_t own = S->own, enemy = S->enemy, occ = own | enemy;
+  uint64_t ep_ = enemy & S->kind[1], enn = enemy & S->kind[2], eb = enemy & S->kind[3], er = enemy & S->kind[4], eq = enemy & S->kind[5], ek = enemy & S->kind[6];
+  uint32_t f = spec_move_from(m), t = spec_move_to(m), cc = spec_move_ccode(m);
+  G->checkers = (spec_pawn_attackers_of(k, side) & ep_) | (spec_knight(k) & enn) | (spec_bishop_walk(k, occ) & (eb | eq)) | (spec_rook_walk(k, occ) & (er | eq));
+  for (int r = 0; r < 8; r++) G->pin[r] = spec_pin_sq(r, k, occ, own, eq, er, eb);
+  G->att[0] = G->att[1] = 0; G->att[2] = spec_knight(f); G->att[3] = spec_bishop_walk(f, occ); G->att[4] = spec_rook_walk(f, occ); G->att[5] = spec_queen_walk(f, occ);
+  G->fb_t = spec_forbidden_bit(side, t, k, occ, ep_, enn, eb, er, eq, ek);
+  G->fb_a = spec_forbidden_bit(side, alg_castle_sq_a(side, cc), k, occ, ep_, enn, eb, er, eq, ek);
+  G->fb_b = spec_forbidden_bit(side, alg_castle_sq_b(side, cc), k, occ, ep_, enn, eb, er, eq, ek);
+  G->seg = G->checkers ? spec_segment(k, alg_lsb(G->checkers)) : 0;
+}
+#ifdef SPEC_POS_H
+static inline uint64_t alg_set(const sp_pc *b, uint32_t pc) { uint64_t o = 0; for (uint32_t s = 0; s < 64; s++) if (b[s] == pc) o |= SPEC_BIT(s); return o; }
+static inline uint64_t alg_colour(const sp_pc *b, uint32_t c) { uint64_t o = 0; for (uint32_t s = 0; s < 64; s++) if (b[s] != 0 && sp_colour(b[s]) == c) o |= SPEC_BIT(s); return o; }
+/* square sets of the mailbox board */
+static inline void spec_alg_sets(const SPos *P, AlgSets *S)
+{
+  const sp_pc *b = P->board;
+  S->own = alg_colour(b, P->side); S->enemy = alg_colour(b, 1 - P->side);
+  S->kind[0] = 0; for (uint32_t k = 1; k <= 6; k++) S->kind[k] = alg_set(b, k) | alg_set(b, k + 6);
+  S->k = sp_king_sq(b, P->side); S->side = P->side; S->rights = P->rights; S->ep = P->ep;
+}
+static inline int spec_alg_count(const SPos *P, uint32_t m)
+{ AlgSets S; AlgGhost G; spec_alg_sets(P, &S); spec_alg_true_ghost(&S, m, &G); return spec_alg_core(&S, &G, m); }
 #endif
 #endif
